@@ -6,7 +6,8 @@
 (* compares it with selectorvalidator.ValidateMaxRecursionDepth on the same selector        *)
 (* (kept only when go-ipld-prime's ParseSelector accepts it as well-formed).                *)
 EXTENDS Naturals, Sequences, FiniteSets, TLC, Json
-CONSTANTS MaxNodes, Limits, MaxAccepted       \* Limits: subset of Nat; None (= 0) encodes the "no limit" member
+CONSTANTS MaxNodes, Limits, MaxAccepted,      \* Limits: subset of Nat; None (= 0) encodes the "no limit" member
+          Depths                               \* nesting depths at which small selectors are additionally buried ({} = none)
 
 None == 0
 Leaves == { [k |-> "matcher"], [k |-> "edge"] }
@@ -26,9 +27,30 @@ Valid(s) == CASE s.k \in {"matcher", "edge"} -> TRUE
               [] s.k = "rec" -> s.lim # None /\ s.lim <= MaxAccepted /\ Valid(s.n)
               [] s.k \in {"union", "fields2"} -> Valid(s.a) /\ Valid(s.b)
 
-VARIABLES ast, verdict
-Init == ast \in ASTs /\ verdict = "unknown"
-Validate == verdict = "unknown" /\ verdict' = (IF Valid(ast) THEN "accept" ELSE "reject") /\ UNCHANGED ast
+\* "at any nesting depth": every small selector that contains a recursion, buried under d enclosing clauses of one kind,
+\* or of all kinds in turn
+HasRec(s) == CASE s.k \in {"matcher", "edge"} -> FALSE
+               [] s.k = "rec" -> TRUE
+               [] s.k \in {"all", "index", "range", "interp", "fields1"} -> (LET RECURSIVE H(_) H(x) == CASE x.k \in {"matcher", "edge"} -> FALSE [] x.k = "rec" -> TRUE
+                                                                                     [] x.k \in {"all", "index", "range", "interp", "fields1"} -> H(x.n) [] OTHER -> H(x.a) \/ H(x.b) IN H(s.n))
+               [] OTHER -> (LET RECURSIVE H(_) H(x) == CASE x.k \in {"matcher", "edge"} -> FALSE [] x.k = "rec" -> TRUE
+                                                          [] x.k \in {"all", "index", "range", "interp", "fields1"} -> H(x.n) [] OTHER -> H(x.a) \/ H(x.b) IN H(s.a) \/ H(s.b))
+WrapKinds == {"all", "index", "range", "interp", "fields1", "union", "mix"}
+Cycle == <<"all", "fields1", "interp", "index", "range", "union">>
+Wrap1(kk, s) == IF kk = "union" THEN [k |-> "union", a |-> s, b |-> [k |-> "matcher"]] ELSE [k |-> kk, n |-> s]
+RECURSIVE WrapN(_, _, _)
+WrapN(kk, d, s) == IF d = 0 THEN s ELSE Wrap1(IF kk = "mix" THEN Cycle[(d % 6) + 1] ELSE kk, WrapN(kk, d - 1, s))
+Cores == { s \in UNION { Exact(n) : n \in 1..3 } : HasRec(s) }
+DeepASTs == { WrapN(kk, d, s) : kk \in WrapKinds, d \in Depths, s \in Cores }
+
+\* (the state holds the small selector and how it is buried; the buried selector itself is only built when it is judged and
+\*  printed, deep records in states overflow TLC's state-queue writer)
+VARIABLES core, wk, wd, verdict
+ast == WrapN(wk, wd, core)
+Init == /\ verdict = "unknown"
+        /\ \/ core \in ASTs /\ wk = "all" /\ wd = 0
+           \/ core \in Cores /\ wk \in WrapKinds /\ wd \in Depths
+Validate == verdict = "unknown" /\ verdict' = (IF Valid(ast) THEN "accept" ELSE "reject") /\ UNCHANGED <<core, wk, wd>>
 Next == Validate
 Emit == PrintT(ToJson([ast |-> ast, valid |-> Valid(ast)]))
 \* sanity: the verdict, once given, is the predicate
